@@ -2,6 +2,7 @@ package props
 
 import (
 	"fmt"
+	"os/exec"
 	"regexp"
 	"runtime"
 	"sort"
@@ -490,6 +491,85 @@ func init() {
 			{Name: "concurrent histories checked with porcupine", N: Fixed(400, 30000), Run: func(c *Ctx, i int, r *gen.R) { withProcs(c, func() { c17Concurrent(c, i, r) }) }},
 			{Name: "sequential histories vs a map", N: Fixed(200, 10000), Run: c17Sequential},
 			{Name: "fail-closed probes", N: Fixed(120, 3000), Run: c17FailClosed},
+			{Name: "first registry operations of a fresh process (5 scripts x 6 built-in names, one child process each)", Exhaustive: true, N: Fixed(30, 30), Run: c17Fresh},
 		},
 	})
+}
+
+// ---------------------------------------------------------------------------
+// first registry operations of a fresh process: whatever the library initialises lazily must not
+// disturb what the application did first.  Each case runs in its own child process (vcheck -aux c17fresh).
+
+func init() { auxModes["c17fresh"] = c17FreshChild }
+
+var c17FreshModes = []string{"overwrite-builtin-first", "register-new-first", "list-first", "named-unknown-first", "overwrite-then-list"}
+
+// c17FreshChild performs the scripted first operations and prints "OK" or "BAD: <what>".
+func c17FreshChild(args []string) int {
+	if len(args) < 2 {
+		return 3
+	}
+	mode, name := args[0], args[1]
+	mine := c17Value("c0-1")
+	bad := func(f string, a ...interface{}) int { fmt.Printf("BAD: "+f+"\n", a...); return 0 }
+	switch mode {
+	case "overwrite-builtin-first":
+		decoration.RegisterDecorationName(name, mine)
+		if got := decoration.Named(name); got != mine {
+			return bad("RegisterDecorationName(%q, X) was the first registry operation of the process; the next Named(%q) returns a decoration with Horizontal=%q instead of X", name, name, got.Horizontal)
+		}
+	case "overwrite-then-list":
+		decoration.RegisterDecorationName(name, mine)
+		if p := c17ListProblems(decoration.RegisteredDecorationNames()); p != "" {
+			return bad("after overwriting %q as the first operation the listing is malformed: %s", name, p)
+		}
+		if got := decoration.Named(name); got != mine {
+			return bad("after overwriting %q as the first operation and then listing, Named returns Horizontal=%q instead of the registered value", name, got.Horizontal)
+		}
+	case "register-new-first":
+		decoration.RegisterDecorationName("fresh-"+name, mine)
+		if got := decoration.Named("fresh-" + name); got != mine {
+			return bad("a name registered as the first operation is not found afterwards")
+		}
+		if p := c17ListProblems(decoration.RegisteredDecorationNames()); p != "" {
+			return bad("listing after a first registration: %s", p)
+		}
+	case "list-first":
+		if p := c17ListProblems(decoration.RegisteredDecorationNames()); p != "" {
+			return bad("listing as the first operation: %s", p)
+		}
+		if decoration.Named(name) == decoration.EmptyDecoration {
+			return bad("built-in %q not found", name)
+		}
+	case "named-unknown-first":
+		if decoration.Named("never-"+name) != decoration.EmptyDecoration {
+			return bad("unknown name resolves as the first operation")
+		}
+		if decoration.Named(name) == decoration.EmptyDecoration {
+			return bad("built-in %q not found after an unknown lookup", name)
+		}
+	default:
+		return 3
+	}
+	fmt.Println("OK")
+	return 0
+}
+
+func c17Fresh(c *Ctx, i int, r *gen.R) {
+	mode := c17FreshModes[i%len(c17FreshModes)]
+	name := c17Builtins[(i/len(c17FreshModes))%len(c17Builtins)]
+	desc := map[string]interface{}{"first_operations_of_a_fresh_process": mode, "built_in_name": name}
+	c.Case = desc
+	out, err := exec.Command(c.Exe, "-aux", "c17fresh", mode, name).CombinedOutput()
+	c.Rec.Eval(gen.Hash64("fresh", mode, name), true)
+	c.Rec.Count("fresh_process_probes", 1)
+	s := strings.TrimSpace(string(out))
+	switch {
+	case err != nil:
+		c.Rec.Violate("fresh-process:child-died:"+mode, fmt.Sprintf("the child process performing %q on %q died: %v; output %q", mode, name, err, s), desc)
+	case strings.HasPrefix(s, "BAD:"):
+		c.Rec.Violate("fresh-process:"+mode, s, desc)
+	case !strings.HasSuffix(s, "OK"):
+		c.Rec.Inconclusive("fresh-process child printed neither OK nor BAD: " + s)
+	}
 }
